@@ -73,11 +73,29 @@ Ltac finish_tail st idx coin ok gs EV0 NI0 Hcoin Lidx Widx :=
     | change (0 =? 0)%Z with true; cbv beta iota ]
   | change (negb (negb (0 =? 0)%Z)) with true; cbv beta iota ].
 
+Lemma sfields_len s : forall cur t, In t (sfields s cur) -> (length t <= length s + length cur)%nat.
+Proof.
+  induction s as [|c s IH]; intros cur t Ht; cbn [sfields] in Ht.
+  - destruct Ht as [<-|[]]. rewrite rev_length. cbn. lia.
+  - destruct (Byte.eqb c x20).
+    + destruct Ht as [<-|Ht]; [rewrite rev_length; cbn [length]; lia|]. specialize (IH [] t Ht). cbn [length] in *. lia.
+    + specialize (IH (c :: cur) t Ht). cbn [length] in *. lia.
+Qed.
+
+Lemma tokens_len s t : In t (spec_tokens s) -> (length t <= length s)%nat.
+Proof.
+  intros H. rewrite spec_tokens_eq in H. apply drop_last_empty_in in H. pose proof (sfields_len s [] t H). cbn [length] in *. lia.
+Qed.
+
 Section Decode.
   Variables (sgn : bool) (st : state) (fuel : nat) (D : list Z -> list Z * Z) (ext : Z -> list Z -> Z).
   Let dp := st_deps st.
   Let nf := dp_nfkd dp.
-  Hypothesis Hext : forall li L w, nth_error langs li = Some L -> ext (Z.of_nat li) (zs w) = enc (lang_search sgn L w).
+  Variable OKW : bytes -> Prop.
+  (* the search called by the language loop answers as the mirror search on every token that can occur: NUL-free and
+     no longer than the normalised string (CTieSearch shows the translated lang_search does, given libc bsearch) *)
+  Hypothesis Hext : forall li L w, OKW w -> nth_error langs li = Some L -> ext (Z.of_nat li) (zs w) = enc (lang_search sgn L w).
+  Hypothesis Hokw : forall t, no_nul t -> (length t + 2 <= fuel)%nat -> OKW t.
   Hypothesis Hfuel18 : (18 <= fuel)%nat.
 
   Theorem tie_decode str coin ok lo lo0 gb gf gs gc so0 :
@@ -124,9 +142,12 @@ Section Decode.
     apply Nat.eqb_eq in Ew. subst w.
     assert (Ltok : length toks = 16%nat) by (rewrite SW; apply S16; reflexivity).
     assert (Ntok : Forall no_nul toks) by (rewrite SW by (apply S16; reflexivity); apply tokens_nonul, Hnorm).
+    assert (Otok : Forall OKW toks).
+    { apply Forall_forall. intros t Ht. apply Hokw; [rewrite Forall_forall in Ntok; apply Ntok, Ht|].
+      rewrite SW in Ht by (apply S16; reflexivity). pose proof (tokens_len norm t Ht). lia. }
     rewrite (map_cstr_at Bf' words' toks LW Ltok HQ).
     rewrite tie_phrase_decode_ev.
-    pose proof (tie_phrase_decode_langs sgn ext toks (repeat 0%Z 16) lo lo0 fuel Hext Ltok eq_refl Hfuel18) as R.
+    pose proof (tie_phrase_decode_langs sgn ext OKW toks (repeat 0%Z 16) lo lo0 fuel Hext Otok Ltok eq_refl Hfuel18) as R.
     change [0; 0; 0; 0; 0; 0; 0; 0; 0; 0; 0; 0; 0; 0; 0; 0]%Z with (repeat 0%Z 16).
     rewrite (phrase_decode_spec sgn toks Ntok) in *.
     destruct (matching langs 0 toks) as [|[l idx] [|? ?]] eqn:EM; cbn [pd_of] in *.
@@ -198,9 +219,12 @@ Section Decode.
     apply Nat.eqb_eq in Ew. subst w.
     assert (Ltok : length toks = 16%nat) by (rewrite SW; apply S16; reflexivity).
     assert (Ntok : Forall no_nul toks) by (rewrite SW by (apply S16; reflexivity); apply tokens_nonul, Hnorm).
+    assert (Otok : Forall OKW toks).
+    { apply Forall_forall. intros t Ht. apply Hokw; [rewrite Forall_forall in Ntok; apply Ntok, Ht|].
+      rewrite SW in Ht by (apply S16; reflexivity). pose proof (tokens_len norm t Ht). lia. }
     rewrite (map_cstr_at Bf' words' toks LW Ltok HQ).
     assert (InL : In L langs) by (apply nth_error_In in HL; exact HL).
-    destruct (tie_phrase_decode_explicit_langs sgn ext li L toks (repeat 0%Z 16) fuel Hext HL Ltok eq_refl Hfuel18) as (io&R).
+    destruct (tie_phrase_decode_explicit_langs sgn ext OKW li L toks (repeat 0%Z 16) fuel Hext HL Otok Ltok eq_refl Hfuel18) as (io&R).
     change [0; 0; 0; 0; 0; 0; 0; 0; 0; 0; 0; 0; 0; 0; 0; 0]%Z with (repeat 0%Z 16).
     unfold phrase_decode_explicit. rewrite (decode_words_spec sgn L toks InL Ntok) in *.
     destruct (spec_lookup_all L toks) as [idx|] eqn:EM; rewrite R; cbv beta iota.
